@@ -14,7 +14,10 @@ func ObjStmMembers(dict XDict, raw []byte) (map[uint32]any, error) {
 	if !ok1 || !ok2 || n < 0 || first < 0 || first > int64(len(body)) {
 		return nil, fmt.Errorf("bad /N or /First")
 	}
-	hl := &XLexer{Data: body[:first]}
+	// the table is tokenised the way any reader does it, from the start of
+	// the data: it must end at or before /First (a last offset that runs into
+	// the first member is not an offset table of N pairs)
+	hl := &XLexer{Data: body}
 	type pair struct {
 		num uint32
 		off int64
@@ -32,6 +35,9 @@ func ObjStmMembers(dict XDict, raw []byte) (map[uint32]any, error) {
 			return nil, fmt.Errorf("header pair incomplete")
 		}
 		pairs = append(pairs, pair{uint32(a), b})
+	}
+	if int64(hl.Pos) > first {
+		return nil, fmt.Errorf("the table of %d pairs ends at byte %d, behind /First %d (its last integer and the first member form one token)", n, hl.Pos, first)
 	}
 	out := map[uint32]any{}
 	for i, p := range pairs {
